@@ -8,6 +8,7 @@ import PdbVerif.Spec.C14
 
 set_option linter.unusedVariables false
 set_option linter.unusedSimpArgs false
+set_option linter.unusedSectionVars false
 
 namespace Proofs.Contacts
 open Model Py
@@ -274,7 +275,7 @@ theorem getD_extend (d : Dict κ (List ν)) (k k' : κ) (l : List ν) :
       · subst h
         simp [Dict.extend, Dict.getD, h0, ih]
       · by_cases h1 : k₀ = k'
-        · subst h1; simp [Dict.extend, Dict.getD, h0]
+        · subst h1; simp [Dict.extend, Dict.getD, h0, h]
         · simp [Dict.extend, Dict.getD, h0, h1, h, ih]
 
 theorem keys_extend (d : Dict κ (List ν)) (k : κ) (l : List ν) :
@@ -510,7 +511,7 @@ theorem keys_applyEvents_nil (evs : List (κ × List ν)) :
     rw [applyEvents_append]
     show ((applyEvents [] es).extend e.1 e.2).keys = _
     rw [keys_extend, ih, List.map_append, List.map_singleton, distinctFirst_append_singleton]
-    simp [mem_distinctFirst]
+    simp only [mem_distinctFirst]
 
 /-- closed form of a dictionary built from events -/
 theorem applyEvents_nil_eq (evs : List (κ × List ν)) :
